@@ -93,6 +93,17 @@ def shrink(eng, rec, max_tests=400):
     config = rec["config"]
     ops = [op for op in rec["ops"] if not op.get("_skipped")]
     budget = [max_tests]
+    if not _fails_same(eng, config, ops, inv, budget):
+        # The run failed in its worker but does not fail again in this process.  With every
+        # harness choice derived from the seed, that means the library carries process-global
+        # state from one execution to the next (e.g. a mutated module-level default).  Such a
+        # failure cannot be minimised in-process; the unshrunk history is written out and must
+        # reproduce in a fresh interpreter (checked by the caller).
+        out = dict(rec)
+        out["shrink_tests"] = 1
+        out["original_len"] = len(rec["ops"])
+        out["not_shrunk"] = "not reproducible inside a process that already executed it"
+        return out
     # only ops up to the failing one matter
     # 1. drop faults first
     nofault = [op for op in ops if "fault" not in op]
@@ -126,9 +137,10 @@ def shrink(eng, rec, max_tests=400):
                     break
     final = core.execute(eng, config, [dict(o) for o in ops])
     if not final["violation"] or final["violation"]["invariant"] != inv:
-        # should not happen (determinism); fall back to the original
-        final = core.execute(eng, rec["config"], [
-            {k: v for k, v in op.items() if k != "_skipped"} for op in rec["ops"]])
+        # the library changed process-global state while the shrinker was executing it (see
+        # above): give up minimising, hand out the history exactly as the worker recorded it
+        final = dict(rec)
+        final["not_shrunk"] = "became irreproducible in this process while shrinking"
     final["run_seed"] = rec["run_seed"]
     final["shrink_tests"] = max_tests - budget[0]
     final["original_len"] = len(rec["ops"])
@@ -160,11 +172,11 @@ def replay_file(eng, path):
     """Execute a replay file in this interpreter; returns (reproduced, record)."""
     data = json.load(open(path))
     rec = core.execute(eng, data["config"], data["ops"])
-    ok = bool(
-        rec["violation"]
-        and rec["violation"]["invariant"] == data["invariant"]
-        and (data.get("digest") in (None, rec["digest"]))
-    )
+    ok = bool(rec["violation"] and rec["violation"]["invariant"] == data["invariant"])
+    # the event digest is expected to match too; it cannot when the library itself carries
+    # process-global state from the executions that preceded the recorded one in its worker
+    # (the same violation then reproduces with other numbers) - reported, not hidden
+    rec["digest_matches"] = data.get("digest") in (None, rec["digest"])
     return ok, rec, data
 
 
